@@ -73,22 +73,28 @@ def analyse(pid, prop, data):
             continue
         ex, mi = d["executed_lines"], d["missing_lines"]
         res["files"].append({"file": rel, "statements": len(ex) + len(mi), "executed": len(ex)})
-    for mech in prop["anchors"].get("mechanism", []):
-        w = parse_where(mech.get("where", ""))
-        if not w:
-            continue
-        f, a, b = w
-        d = files.get(f)
-        if d is None:
-            res["mechanisms"].append({"name": mech["name"], "where": mech["where"],
-                                      "statements": None, "executed": 0, "missing": None})
-            continue
-        inr = (lambda n: True) if a is None else (lambda n: a <= n <= b)
-        ex = [n for n in d["executed_lines"] if inr(n)]
-        mi = [n for n in d["missing_lines"] if inr(n)]
-        res["mechanisms"].append({"name": mech["name"], "where": mech["where"],
-                                  "statements": len(ex) + len(mi), "executed": len(ex),
-                                  "missing": compress(mi)})
+    from harness import anchors
+    groups = {}
+    for name, where, fn, a, b, q in anchors.property_ranges(prop):
+        groups.setdefault((name, where), []).append((fn, a, b, q))
+    for (name, where), rs in groups.items():
+        ex, mi, funcs, seen = [], {}, [], False
+        for fn, a, b, q in rs:
+            d = files.get(fn)
+            funcs.append("%s:%s:%d-%d" % (fn.split("/")[-1], q, a, b))
+            if d is None:
+                continue
+            seen = True
+            ex += [(fn, n) for n in d["executed_lines"] if a <= n <= b]
+            for n in d["missing_lines"]:
+                if a <= n <= b:
+                    mi.setdefault(fn, set()).add(n)
+        ex = set(ex)
+        nmi = sum(len(v) for v in mi.values())
+        res["mechanisms"].append({"name": name, "where": where, "resolved": funcs,
+                                  "statements": (len(ex) + nmi) if seen else None, "executed": len(ex),
+                                  "missing": ["%s:%s" % (fn.split("/")[-1], ",".join(compress(sorted(v))))
+                                              for fn, v in sorted(mi.items())] if seen else None})
     return res
 
 
@@ -118,8 +124,7 @@ def table():
         fs = [f for f in r["files"] if f["statements"]]
         fs_s = sum(f["statements"] for f in fs)
         fs_e = sum(f["executed"] for f in fs)
-        miss = "; ".join("%s: %s" % (m["where"].split("/")[-1].split(":")[0], ",".join(m["missing"]))
-                         for m in ms if m["missing"])
+        miss = "; ".join(x for m in ms for x in (m["missing"] or []))
         rows.append("| %s | %s | %d/%d (%.0f%%) | %d/%d (%.0f%%) | %s |" % (
             r["property"], r["tier"], e, s, 100.0 * e / max(s, 1), fs_e, fs_s,
             100.0 * fs_e / max(fs_s, 1), miss[:400]))
